@@ -112,7 +112,7 @@ func Payload(t *rapid.T, label string, max int) []byte {
 	if max < 16 {
 		max = 16
 	}
-	class := rapid.IntRange(0, 15).Draw(t, label+"_class")
+	class := rapid.IntRange(0, 17).Draw(t, label+"_class")
 	size := func(lo, hi int) int {
 		if hi > max {
 			hi = max
@@ -183,6 +183,19 @@ func Payload(t *rapid.T, label string, max int) []byte {
 			return Book(t, label, 33000, max)
 		}
 		return Book(t, label, 200, min(6000, max))
+	case 16, 17: // long runs of the largest byte values after a short prefix: the worst case for checksum accumulators
+		// that defer their modulo (Adler-32's 5552-byte blocks) and for run-length paths
+		n := max - rapid.IntRange(0, max-1).Draw(t, label+"_hshort") // (long is the common case)
+		out := make([]byte, 0, n+300)
+		np := rapid.IntRange(0, 300).Draw(t, label+"_hprefix")
+		for i := 0; i < np; i++ {
+			out = append(out, byte(0xFF-rapid.IntRange(0, 16).Draw(t, fmt.Sprintf("%s_hp%d", label, i))))
+		}
+		hi := byte(0xFF - rapid.IntRange(0, 2).Draw(t, label+"_hbyte"))
+		for len(out) < n {
+			out = append(out, hi)
+		}
+		return out[:n]
 	case 14, 15: // segments of different compressibility (an encoder switches block / chunk types between them)
 		k := rapid.IntRange(2, 4).Draw(t, label+"_nseg")
 		var out []byte
